@@ -154,6 +154,8 @@ Eval vm_compute in (length cases, length bad, map fst (firstn 3 bad)).
     ru = cfg("RECTANGLE", months=24, loads={"kind": "cooling", "scale": 26000.0, "seed": 5})
     ru["_first_configured_with"] = {"loads": {"synthetic": {"kind": "heating", "scale": 9000.0, "seed": 2}}, "simulation": {"num_months": 12}}
     cfgs.append(ru)
+    # a design clamped at the minimum height (loads so small that the smallest field suffices)
+    cfgs.append(cfg(months=12, loads={"kind": "balanced", "scale": 300.0, "seed": 1}, design={"continue_if_design_unmet": True}))
     # a RowWise design for which one borehole suffices (the search evaluates a stand-in 1X1 field at the origin)
     cfgs.append(cfg("ROWWISE", months=12, loads={"kind": "balanced", "scale": 400.0, "seed": 1}))
     for r in e2e_runs(cfgs):
@@ -186,6 +188,10 @@ Eval vm_compute in (length cases, length bad, map fst (firstn 3 bad)).
         xs = [g[0] for g in grow]
         if any(b <= a for a, b in zip(xs, xs[1:])):
             chk.violation("gfunction-csv", {"cfg": r["cfg"]}, {"x": xs}, "strictly increasing ln(t/ts)")
+        rg = (r.get("reference") or {}).get("gfunc")
+        if rg is not None and (xs != rg["x"] or [g[1] for g in grow] != rg["y"]):
+            chk.violation("gfunction-csv", {"cfg": r["cfg"]}, {"rows": grow[:3], "first_rows_from_the_requested_inputs": list(zip(rg["x"][:3], rg["y"][:3]))},
+                          "Gfunction.csv holds the curve of the reported borehole (height, radius, media as requested), short-time part included")
         if "gfunc" in r and (xs != r["gfunc"]["x"] or [g[1] for g in grow] != r["gfunc"]["y"]):
             chk.violation("gfunction-csv", {"cfg": r["cfg"]}, {"rows": grow[:3]}, "the rows of the curve used in the simulation")
         chk.cov["evaluations"] += len(rows) + len(brow) + len(grow)
